@@ -11,4 +11,7 @@ let () =
   | _ :: "joint" :: _ -> R_joint.run ()
   | _ :: "exc" :: _ -> R_exc.run ()
   | _ :: "thread" :: _ -> R_thread.run ()
+  | _ :: "compose" :: "fb" :: _ -> R_compose.run_fb ()
+  | _ :: "compose" :: "fbl" :: _ -> R_compose.run_fbl ()
+  | _ :: "compose" :: _ -> R_compose.run_fwd ()
   | _ -> prerr_endline "usage: replay <topic> [args]"; exit 2
